@@ -559,6 +559,9 @@ class _FragmentCompiler:
                     # the reset takes effect, and nothing else in the domain advances.
                     emitter.append("if process.clk_edge:")
                     emitter._level += 1
+                    # Cleared before the statements run, not after: a failing assertion among them leaves
+                    # through an exception, and the edge must not be seen again by the next wake-up.
+                    emitter.append("process.clk_edge = False")
 
                 _StatementCompiler(self.state, emitter)(domain_stmts)
 
@@ -606,7 +609,6 @@ class _FragmentCompiler:
                             lhs(port._data)(data)
 
                 if async_reset:
-                    emitter.append("process.clk_edge = False")
                     emitter._level -= 1
 
                 # The data output of a synchronous memory read port is not affected by the reset of
